@@ -483,4 +483,30 @@ def rule_sphinx(check, rule):
                             witness='builtins without signature abort the documentation build')
     if not [x for x in es.of(fi.key) if x.cls == '*']:
         check.holds(rule, site_of(fi, fi.node), 'no arbitrary exception escapes the hook once the object is fetched', key='process_signature|eval')
+    # descriptor binding runs user code (property getters): outside the catch-all handler it must be
+    # restricted to callables, whose __get__ only binds
+    for cs in cg.sites[fi.key]:
+        if any(c.key == '_util:safe_get' for c in cs.callees):
+            chain = es.try_chain(fi, cs.node)
+            names = set(hn for tr, hs in chain for h, nm, rer in hs for hn in nm if hn)
+            key = 'process_signature|binding'
+            n += 1
+            if 'Exception' in names or 'BaseException' in names:
+                check.holds(rule, site_of(fi, cs.node), 'descriptor binding happens under the catch-all handler', key=key)
+                continue
+            guarded = False
+            t = cs.node
+            while t is not None and t is not fi.node:
+                par = getattr(t, '_parent', None)
+                if isinstance(par, ast.If) and t in par.body:
+                    for x in ast.walk(par.test):
+                        if isinstance(x, ast.Call) and isinstance(x.func, ast.Name) and x.func.id == 'callable':
+                            guarded = True
+                t = par
+            if guarded:
+                check.holds(rule, site_of(fi, cs.node), 'class members are bound through their descriptor only when they are callable', key=key)
+            else:
+                check.violation(rule, site_of(fi, cs.node), 'every class member is bound through its descriptor outside any handler: for a property or '
+                                'cached_property this runs the getter on a dummy object, and whatever it raises aborts the documentation build',
+                                key=key, witness='a documented property whose getter touches self')
     check.floor(rule, 'external raisers reachable from the Sphinx hook', n, 1)
